@@ -34,13 +34,14 @@ def hist_counts(entries, edges=HIST_EDGES):
 
 
 class FitWorld(object):
-    def __init__(self, ftype, cost, model="lin", v=0, n=5, minimizer="iminuit", dea="nonlinear", poisson_data=None):
+    def __init__(self, ftype, cost, model="lin", v=0, n=5, minimizer="iminuit", dea="nonlinear", poisson_data=None, gen=None):
         import kafe2
 
         self.k2 = kafe2
         self.ftype, self.cost_id, self.model_key, self.v, self.n = ftype, cost, model, v, n
         self.minimizer, self.dea = minimizer, dea
         self.val = V(v, n)
+        self.gen = gen  # (truth parameter list, noise scale): y data generated from the model plus fixed pseudo-noise
         fam, var = ref.cost_family(cost)
         self.poisson = (fam in ("nll", "nllr") and var == "poisson") or fam == "ga" if poisson_data is None else poisson_data
         self.sources = collections.OrderedDict()  # name -> [kind, enabled]
@@ -57,6 +58,11 @@ class FitWorld(object):
     def _data_arrays(self, variant):
         val = self.val
         if self.ftype == "xy":
+            if self.gen is not None:
+                truth, scale = self.gen
+                xx = val.x if variant == "base" else val.x_alt
+                yy = ref.MODELS[self.model_key](xx, *truth) + scale * (val.noise if variant == "base" else val.noise[::-1])
+                return xx, (np.round(yy) if self.poisson else yy)
             if variant == "base":
                 return val.x, (val.yint if self.poisson else val.y)
             return val.x_alt, (val.yint_alt if self.poisson else val.y_alt)
